@@ -141,6 +141,13 @@ def _reader_unit(fname, prefix, with_path, expects_list):
                          z3.Implies(iscd, z3.BoolVal(out.kind == "raise" or (isinstance(out.value, ListV) and len(out.value.items) == 2))))
         unsupported = z3.And(efmt != z3.StringVal("xyz"), efmt != z3.StringVal("mol2"), efmt != z3.StringVal("cdxml"))
         V.ensure("post/unsupported-format:ValueError", z3.Implies(unsupported, z3.BoolVal(out.raised(I, "ValueError") and not tr)))
+        if with_path and fname == "load" and out.returned:
+            # no state is kept between calls: a second load of the same path reads the file again (it may have been rewritten),
+            # i.e. it performs the same codec / CDXMLFile calls once more
+            n1 = len(calls(st.trace))
+            out2 = V.call(f"molli.reader:{fname}", [path if with_path else data], kwargs)
+            n2 = len(calls(st.trace)) - n1
+            V.ensure("post/second-load-reads-the-source-again", z3.BoolVal(out2.kind == "raise" or n2 == n1))
     return body
 
 
@@ -161,7 +168,9 @@ for _fn, _pre, _wp, _lst in [("load", "load", True, False), ("loads", "loads", F
 @P.unit("molli.writer:dump")
 def _dump(V):
     I, st = V.I, V.st
-    kind = V.choose(["str", "Path", "stream"], "target")
+    # "writer": any object with a write() method that is not an io.TextIOBase (codecs writers, tempfile wrappers, sockets' makefile ...)
+    kind0 = V.choose(["str", "Path", "stream", "writer"], "target")
+    kind = "stream" if kind0 == "writer" else kind0
     fmt_given = V.choose([True, False], "fmt_given")
     fmt = V.sym("fmt", "str") if fmt_given else None
     mode = V.choose(["a", "w", "default"], "mode")
@@ -172,6 +181,11 @@ def _dump(V):
         target = pstr
     elif kind == "Path":
         target = I.call(I.ext_models["pathlib.Path"], [pstr], {})
+    elif kind0 == "writer":
+        duck = ClassV("SomeWriter", builtin=True, bases=[I.builtins["object"]])
+        duck.compute_mro()
+        duck.ns["write"] = Builtin("write", lambda i, a, k: None)
+        target = Obj(duck, {"closed": False}, tag="writer")
     else:
         target = Obj(I.StreamCls, {"path": None, "mode": "w", "closed": False, "owned": False}, tag="stream")
     sfx = path_suffix(pstr.z)
